@@ -57,6 +57,11 @@ fn main() {
         eprintln!("usage: rvmon <monitor> --prop Cxx [--seed S] [--shard i/n] [--tier quick|thorough] [--cases N] [--only idx] [--profile P] [--describe]");
         std::process::exit(64);
     }
+    if args[1] == "cold-child" {
+        // child process of a C18 cold-start case: must not touch the library before its threads start
+        mon_thr::cold_child(&args[2..]);
+        return;
+    }
     let mut ctx = Ctx {
         monitor: args[1].clone(),
         prop: "*".into(),
